@@ -438,9 +438,21 @@ func (e *Engine) appendBuiltin(st *State, s *SliceV, t Value, elem types.Type, s
 						if w < 0 {
 							panic(unsupported("in-place append of unbounded length at " + site))
 						}
+						// memmove semantics: read the whole source before writing
+						// (source and destination may share the backing array)
+						src := make([]Value, w)
 						for k := 0; k < w; k++ {
+							if tv.max >= 0 && k >= tv.max {
+								break
+							}
+							src[k] = tv.get(BVu(uint64(k), 64))
+						}
+						for k := 0; k < w; k++ {
+							if src[k] == nil {
+								break
+							}
 							K := BVu(uint64(k), 64)
-							e.sliceSet(st, sa, Add(sa.Len, K), tv.get(K), And(gin, Ult(K, n)))
+							e.sliceSet(st, sa, Add(sa.Len, K), src[k], And(gin, Ult(K, n)))
 						}
 					}
 				}
